@@ -176,6 +176,8 @@ def theorem_for(t):
             return "C02_parse_render_compact_frac_utc_" + O
         if O in ("OHH_MM", "OHH"):
             return "C02_parse_render_compact_frac_offset_" + O
+        if O == "OHHMM":
+            return "C02_parse_render_compact_frac_offset4"
         return None
     kd, d, j, tf, k, fl, o = t
     if kd == 1:
